@@ -40,7 +40,7 @@ Example C01_ex :
 Proof. vm_compute. reflexivity. Qed.
 
 (* E1 + E5 on the fragment: for an unoptimised program whose operation is built from anchors,
-   literals, classes, captures, alternation, sequence, fixed-length greedy repeats and unambiguous
+   literals, classes, captures, alternation, sequence, fixed-length greedy and reluctant repeats and unambiguous
    repeats (no back-reference, no variable-length repeat), ReMatcher::matches answers true exactly
    when the pure list-of-successes function has a match at some start position - for every input *)
 Theorem C01_fragment_is_match_partial :
